@@ -1,5 +1,6 @@
 import NLE.Proofs.LifeInv
 import NLE.Gen.Shape
+import NLE.Gen.Locks
 /-!
 # C18 — Status and metrics tell the truth (coherence, documented states, STOPPED after a stop, transition chain)
 
@@ -80,5 +81,14 @@ theorem transition_chain {x x' : Inst} {f t : Nat} (h : stepTrans x f t = .ok x'
     snapshot never mixes the two sides of a transition — also when it is taken while one is under way (checked by
     `snap` samples issued from inside the library's critical sections, clause `C18/snapshot-incoherent`). -/
 theorem status_locked_shape : Gen.statusUnderReadLock = true := by decide
+
+/-- … and every write to the fields a snapshot is made of — the flag, the state, the token, the leader id — outside the
+    constructor is made with the election's mutex held exclusively (regenerated table: must-hold lockset at every
+    `Store` / `Swap` / `CompareAndSwap`), by the functions that perform the transitions and by `observeLeader`. -/
+theorem snapshot_fields_written_under_lock :
+    Gen.atomicWrites.all (fun a => decide (a.2.2.1 = 2)) = true ∧
+    (Gen.atomicWrites.map fun a => a.2.1).eraseDups =
+      ["kvElection.Start", "kvElection.becomeLeader", "kvElection.becomeFollower", "kvElection.Stop",
+       "kvElection.StopWithContext", "kvElection.observeLeader"] := by decide +kernel
 
 end NLE.Theorems.C18
